@@ -285,6 +285,18 @@ class RawSession:
             sig = key.sign_ssh_data(blob, sigalgo).asbytes()
             if alter == "sigbytes":
                 sig = sig[:-1] + bytes([sig[-1] ^ 0x01])
+            elif alter in ("sig-relabel", "sig-junk-relabel"):
+                # the name inside the signature blob is not the algorithm of the request (another real name, the
+                # empty name, the certificate form); the bytes behind it are the genuine ones or junk
+                nlen = struct.unpack_from(">I", sig, 0)[0]
+                name = sig[4:4 + nlen]
+                raw = sig[8 + nlen:]
+                other = [x for x in (b"ssh-rsa", b"rsa-sha2-256", b"", name + b"-cert-v01@openssh.com", b"ssh-ed25519",
+                                     name + b"x") if x != name]
+                name = other[self.sim.choose(len(other))]
+                if alter == "sig-junk-relabel":
+                    raw = bytes(len(raw))
+                sig = sstr(name) + sstr(raw)
             elif alter in ("sig-short", "sig-long", "sig-empty", "sig-negative"):
                 # structurally malformed signature blob: string name, string raw
                 nlen = struct.unpack_from(">I", sig, 0)[0]
